@@ -48,3 +48,13 @@ def dallas_table() -> List[int]:
             c = (c >> 1) ^ 0x8C if c & 1 else c >> 1
         t.append(c)
     return t
+
+
+def lua_property_writes(text: str) -> Dict[int, List[int]]:
+    """{low id byte: [declared value lengths]} of the property-protocol write blocks
+    (`bodyBytes[cursor + 0] = id; [cursor + 1] = 0x00; [cursor + 2] = len`, Lua l.3455-3905)."""
+    out: Dict[int, List[int]] = {}
+    for m in re.finditer(r"bodyBytes\[cursor \+ 0\]\s*=\s*(0x[0-9a-fA-F]+)\s*\n(?:[^\n]*\n){0,4}?\s*bodyBytes\[cursor \+ 1\]\s*=\s*(0x[0-9a-fA-F]+)\s*\n\s*bodyBytes\[cursor \+ 2\]\s*=\s*(0x[0-9a-fA-F]+)", text):
+        if int(m.group(2), 16) == 0:
+            out.setdefault(int(m.group(1), 16), []).append(int(m.group(3), 16))
+    return out
